@@ -264,6 +264,33 @@ func hostileChunks(r *vlib.Run, prefix string, cs []namedSource, div int) []host
 			}
 			return s
 		}, "cel-soup"},
+		{"tailjunk", r.N(6000, 60000), 200, func(rng *vlib.RNG) string {
+			// a fragment that ends right after a token, then characters the lexer
+			// does not recognise, at the very end of the input
+			var base string
+			switch rng.Intn(4) {
+			case 0:
+				base = cs[rng.Intn(len(cs))].Text
+				if len(base) > 400 {
+					base = base[:rng.Range(1, 400)]
+				}
+			case 1:
+				base = keywordSoup(rng, rng.Range(1, 3))
+			case 2:
+				base = tokenSoup(rng, rng.Range(1, 8))
+			default:
+				base = []string{"a", "Z", "message M {}", "x = 1", "\"s\"", "1", "(", "{", "]", "a.b", "// c\n", "/* c */", " "}[rng.Intn(13)]
+			}
+			if rng.Bool() {
+				base = strings.TrimRight(base, " \n\t")
+			}
+			junk := []string{"\\", "^", "\u00bf", "\x00", "`", "&", "|", "~", "#", "$", "@", "\u200b", "\u00a0x"[0:2], "\x7f", "%", "!"}
+			n := rng.Range(1, 3)
+			for i := 0; i < n; i++ {
+				base += junk[rng.Intn(len(junk))]
+			}
+			return base
+		}, "trailing-junk"},
 		{"warn", r.N(4000, 30000), 200, func(rng *vlib.RNG) string {
 			s, _ := warningOnly(rng)
 			return s
